@@ -110,19 +110,27 @@ Proof.
   unfold wf in W. cbn [hbh_walk]. rewrite slfrom_ok by lia. cbn [bind len].
   destruct (Nat.ltb_spec (len d - pos) 1); [lia|].
   rewrite idx_ok by (cbn [len]; lia). cbn [bind arr].
-  set (t := N.land _ 31).
+  set (t := nth 0 (skipn pos (arr d)) 0).
   assert (CAP : (cap {| arr := skipn pos (arr d); len := len d - pos |} = cap d - pos)%nat)
     by (unfold cap; cbn [arr]; apply skipn_length).
-  destruct (t =? 0).
-  - cbn [bind]. destruct (Nat.leb_spec (len d) (pos + 1)); [left; reflexivity|]. apply IH; [exact W|lia|lia].
-  - destruct (t =? 5).
-    + destruct (Nat.ltb_spec (len d - pos) 4); cbn [bind]; [right; reflexivity|].
-      rewrite sl_ok by (rewrite ?CAP; lia). cbn [bind].
-      destruct (Nat.leb_spec (len d) (pos + 4)); [left; reflexivity|]. apply IH; [exact W|lia|lia].
-    + destruct (Nat.ltb_spec (len d - pos) 2); cbn [bind]; [right; reflexivity|].
-      rewrite idx_ok by (cbn [len]; lia). cbn [bind].
-      match goal with |- context [Nat.leb (len d) ?x] => destruct (Nat.leb_spec (len d) x) end;
-        [left; reflexivity|]. apply IH; [exact W|lia|lia].
+  assert (STEP : forall pos', (pos < pos')%nat ->
+            is_ret (if Nat.ltb (len d) pos' then Ok VE else if Nat.eqb pos' (len d) then Ok VU else hbh_walk f d pos')).
+  { intros pos' Hlt. destruct (Nat.ltb_spec (len d) pos'); [right; reflexivity|].
+    destruct (Nat.eqb_spec pos' (len d)); [left; reflexivity|]. apply IH; [exact W|lia|lia]. }
+  destruct (t =? 0); [cbn [bind]; apply STEP; lia|].
+  destruct (t =? 1).
+  { destruct (Nat.ltb_spec (len d - pos) 2); cbn [bind]; [right; reflexivity|].
+    rewrite idx_ok by (cbn [len]; lia). cbn [bind]. apply STEP. lia. }
+  destruct (t =? 5).
+  { unfold orr. cbn [bind]. destruct (Nat.ltb_spec (len d - pos) 4); cbn [bind]; [right; reflexivity|].
+    rewrite idx_ok by (cbn [len]; lia). cbn [bind]. destruct (negb _); cbn [bind]; [right; reflexivity|].
+    rewrite sl_ok by (rewrite ?CAP; lia). cbn [bind]. apply STEP. lia. }
+  destruct (t =? 194).
+  { unfold orr. cbn [bind]. destruct (Nat.ltb_spec (len d - pos) 6); cbn [bind]; [right; reflexivity|].
+    rewrite idx_ok by (cbn [len]; lia). cbn [bind]. destruct (negb _); cbn [bind]; [right; reflexivity|]. apply STEP. lia. }
+  destruct (Nat.ltb_spec (len d - pos) 2); cbn [bind]; [right; reflexivity|].
+  destruct (negb _); cbn [bind]; [right; reflexivity|].
+  rewrite idx_ok by (cbn [len]; lia). cbn [bind]. apply STEP. lia.
 Qed.
 
 Lemma HBH_safe v : wf v -> bytes_ok (arr v) -> HBH_IsValid v = Ok true -> getters_ok [] HBH_getters v.
@@ -145,88 +153,87 @@ Proof.
     + rewrite R. split; [apply safe_Ok | inside_tac].
 Qed.
 
-Lemma hbh_dev_range f v dl : forall pos, hbh_dev f v dl pos = 0 \/ hbh_dev f v dl pos = 1 \/ hbh_dev f v dl pos = 2.
-Proof.
-  induction f as [|f IH]; intros pos; [left; reflexivity|]. cbn [hbh_dev].
-  repeat match goal with |- context [if ?c then _ else _] => destruct c end; auto.
-Qed.
+Lemma shr6_div : forall b, b < 256 -> (N.shiftr b 6 =? 0) = (b / 64 =? 0).
+Proof. sweep. Qed.
 
-Lemma land31_nz b : N.land b 31 <> 0 -> b <> 0.
-Proof. intros H E. subst. apply H. reflexivity. Qed.
-
-Lemma hbh_lockstep v dl : wf v -> (2 + dl <= len v)%nat ->
+(* the code's walk over the options area equals the RFC tiling with acceptable options, for every input *)
+Lemma hbh_lockstep v dl : wf v -> bytes_ok (arr v) -> (2 + dl <= len v)%nat ->
   let D := {| arr := skipn 2 (arr v); len := dl |} in
   let Dl := sub (view v) 2 dl in
-  forall f pos, (pos < dl)%nat -> (dl - pos < f)%nat -> hbh_dev f v dl pos = 0 ->
-  forall f1 f2, (dl - pos < f1)%nat -> (dl - pos < f2)%nat ->
+  forall f1 pos, (pos < dl)%nat -> (dl - pos < f1)%nat ->
+  forall f2, (dl - pos < f2)%nat ->
   hbh_walk f1 D pos = Ok (if hbh_tlvs_ok f2 (skipn pos Dl) then VU else VE).
 Proof.
-  intros W Hd D Dl. pose proof (view_length v W) as L. unfold wf in W.
+  intros W B Hd D Dl. pose proof (view_length v W) as L. unfold wf in W.
   assert (LD : List.length Dl = dl) by (unfold Dl; apply sub_length; rewrite L; lia).
   assert (ND : forall i, (i < dl)%nat -> nth i Dl 0 = nth (2 + i) (arr v) 0).
   { intros i Hi. unfold Dl, sub. rewrite nth_firstn by lia. rewrite nth_skipn. apply nth_view. lia. }
-  assert (CAPD : (dl <= cap D)%nat) by (unfold D, cap; cbn [arr]; rewrite skipn_length; unfold cap in W; lia).
-  induction f as [|f IH]; intros pos Hp Hf Hdev f1 f2 H1 H2; [lia|].
-  destruct f1 as [|f1]; [lia|]. destruct f2 as [|f2]; [lia|].
-  cbn [hbh_dev] in Hdev. destruct (Nat.leb_spec dl pos); [lia|]. unfold bt in Hdev.
+  induction f1 as [|f1 IH]; intros pos Hp H1 f2 H2; [lia|]. destruct f2 as [|f2]; [lia|].
   cbn [hbh_walk hbh_tlvs_ok]. unfold D at 1. rewrite slfrom_ok by (cbn [len]; lia). cbn [bind len arr].
   destruct (Nat.ltb_spec (dl - pos) 1); [lia|].
   rewrite idx_ok by (cbn [len]; lia). cbn [bind arr]. rewrite nth_skipn, nth_skipn.
   replace (2 + (pos + 0))%nat with (2 + pos)%nat by lia.
   rewrite (skipn_nth_cons Dl pos 0) by lia. rewrite (ND pos) by lia.
-  set (b0 := nth (2 + pos) (arr v) 0) in *.
-  assert (SK : forall a, skipn a (skipn (S pos) Dl) = skipn (S pos + a) Dl) by (intros; apply skipn_skipn').
-  change (len D) with dl.
-  destruct (N.land b0 31 =? 0) eqn:T0.
-  - (* Pad1 *)
-    destruct (b0 =? 0) eqn:Z; [|discriminate]. cbn [bind].
-    destruct (Nat.leb_spec dl (pos + 1)).
-    + assert (S pos = dl) by lia. rewrite (skipn_all2 Dl) by lia. destruct f2; [lia|]. reflexivity.
-    + replace (pos + 1)%nat with (S pos) by lia. apply IH; lia.
-  - assert (NZ : (b0 =? 0) = false) by (apply N.eqb_neq, land31_nz; lia). rewrite NZ.
-    destruct (N.land b0 31 =? 5) eqn:T5.
-    + (* treated as a router alert *)
-      destruct ((b0 =? 5) && (nth (2 + pos + 1) (arr v) 0 =? 2) && Nat.leb (pos + 4) dl)%bool eqn:RA.
-      * destruct (Nat.ltb_spec (dl - pos) 4); [lia|]. rewrite sl_ok by (unfold cap in *; cbn [arr]; rewrite ?skipn_length; lia). cbn [bind].
-        rewrite (skipn_nth_cons Dl (S pos) 0) by lia. rewrite (ND (S pos)) by lia.
-        replace (2 + S pos)%nat with (2 + pos + 1)%nat by lia.
-        assert (nth (2 + pos + 1) (arr v) 0 = 2) as -> by lia. change (N.to_nat 2) with 2%nat.
-        rewrite skipn_length, LD. destruct (Nat.ltb_spec (dl - S (S pos)) 2); [lia|].
-        rewrite skipn_skipn'. replace (S (S pos) + 2)%nat with (pos + 4)%nat by lia.
-        destruct (Nat.leb_spec dl (pos + 4)).
-        -- rewrite (skipn_all2 Dl) by lia. destruct f2; [lia|]. reflexivity.
-        -- apply IH; lia.
-      * destruct ((b0 =? 5) && (nth (2 + pos + 1) (arr v) 0 =? 2))%bool eqn:RB.
-        -- (* a real router alert that does not fit *)
-           destruct (Nat.ltb_spec (dl - pos) 4); [|lia]. cbn [bind].
-           destruct (skipn (S pos) Dl) as [|n r'] eqn:ES; [reflexivity|].
-           assert (LS : List.length (skipn (S pos) Dl) = S (List.length r')) by (rewrite ES; reflexivity).
-           rewrite skipn_length, LD in LS.
-           assert (n = 2) as ->.
-           { assert (HN : nth 0 (skipn (S pos) Dl) 0 = n) by (rewrite ES; reflexivity).
-             rewrite nth_skipn in HN. rewrite ND in HN by lia. replace (2 + (S pos + 0))%nat with (2 + pos + 1)%nat in HN by lia. lia. }
-           change (N.to_nat 2) with 2%nat. destruct (Nat.ltb_spec (List.length r') 2); [reflexivity|lia].
-        -- destruct (Nat.ltb_spec (dl - pos) 2); [|discriminate].
-           destruct (Nat.ltb_spec (dl - pos) 4); [|lia]. cbn [bind].
-           rewrite (skipn_all2 Dl) by lia. reflexivity.
-    + (* any other type: TLV *)
-      destruct (Nat.ltb_spec (dl - pos) 2).
-      * cbn [bind]. rewrite (skipn_all2 Dl) by lia. reflexivity.
-      * rewrite idx_ok by (cbn [len]; lia). cbn [bind arr]. rewrite nth_skipn, nth_skipn.
-        replace (2 + (pos + 1))%nat with (2 + pos + 1)%nat by lia.
-        rewrite (skipn_nth_cons Dl (S pos) 0) by lia. rewrite (ND (S pos)) by lia.
-        replace (2 + S pos)%nat with (2 + pos + 1)%nat by lia.
-        set (b1 := nth (2 + pos + 1) (arr v) 0) in *.
-        destruct (Nat.ltb_spec dl (pos + 2 + N.to_nat b1)); [discriminate|].
-        rewrite skipn_length, LD. destruct (Nat.ltb_spec (dl - S (S pos)) (N.to_nat b1)); [lia|].
-        rewrite skipn_skipn'. replace (S (S pos) + N.to_nat b1)%nat with (pos + 2 + N.to_nat b1)%nat by lia.
-        replace (pos + N.to_nat b1 + 2)%nat with (pos + 2 + N.to_nat b1)%nat by lia.
-        destruct (Nat.leb_spec dl (pos + 2 + N.to_nat b1)).
-        -- rewrite (skipn_all2 Dl) by lia. destruct f2; [lia|]. reflexivity.
-        -- apply IH; lia.
+  set (t := nth (2 + pos) (arr v) 0) in *. change (len D) with dl.
+  assert (Bt : t < 256) by apply (bytes_ok_nth (arr v) _ B).
+  (* the common tail: after an accepted option ending at pos' *)
+  assert (STEP : forall pos' g2, (pos < pos')%nat -> (dl - pos' < g2 \/ dl < pos')%nat -> (S f2 > g2 \/ True)%nat ->
+            (if Nat.ltb dl pos' then Ok VE else if Nat.eqb pos' dl then Ok VU else hbh_walk f1 D pos') =
+            Ok (if Nat.ltb dl pos' then VE else if hbh_tlvs_ok g2 (skipn pos' Dl) then VU else VE)).
+  { intros pos' g2 Hlt Hg _. destruct (Nat.ltb_spec dl pos'); [reflexivity|].
+    destruct (Nat.eqb_spec pos' dl).
+    - subst pos'. rewrite (skipn_all2 Dl) by lia. destruct g2; [lia|]. reflexivity.
+    - apply IH; lia. }
+  destruct (t =? 0) eqn:T0.
+  { cbn [bind]. rewrite (STEP (pos + 1)%nat f2) by lia. replace (pos + 1)%nat with (S pos) by lia.
+    destruct (Nat.ltb_spec dl (S pos)); [lia|]. reflexivity. }
+  (* every other option needs its length octet *)
+  destruct (Nat.ltb_spec (dl - pos) 2) as [Hs|Hs].
+  { rewrite (skipn_all2 Dl) by lia.
+    destruct (t =? 1); [cbn [bind]; reflexivity|].
+    destruct (t =? 5); [unfold orr; cbn [bind]; destruct (Nat.ltb_spec (dl - pos) 4); [cbn [bind]; reflexivity|lia]|].
+    destruct (t =? 194); [unfold orr; cbn [bind]; destruct (Nat.ltb_spec (dl - pos) 6); [cbn [bind]; reflexivity|lia]|].
+    cbn [bind]. reflexivity. }
+  rewrite (skipn_nth_cons Dl (S pos) 0) by lia. rewrite (ND (S pos)) by lia.
+  replace (2 + S pos)%nat with (2 + pos + 1)%nat by lia.
+  set (b1 := nth (2 + pos + 1) (arr v) 0) in *.
+  rewrite skipn_length, LD. rewrite !skipn_skipn'.
+  assert (IDX1 : idx {| arr := skipn (2 + pos) (arr v); len := dl - pos |} 1 = Ok b1).
+  { rewrite idx_ok by (cbn [len]; lia). cbn [arr]. rewrite nth_skipn. unfold b1. do 2 f_equal; try lia. }
+  replace (S (S pos) + N.to_nat b1)%nat with (pos + N.to_nat b1 + 2)%nat by lia.
+  replace (dl - S (S pos))%nat with (dl - pos - 2)%nat by lia.
+  unfold hbh_option_ok.
+  assert (TAIL : forall ok : bool, ok = true ->
+     (if Nat.ltb dl (pos + N.to_nat b1 + 2) then Ok VE
+      else if Nat.eqb (pos + N.to_nat b1 + 2) dl then Ok VU else hbh_walk f1 D (pos + N.to_nat b1 + 2)) =
+     Ok (if (if negb ok then false
+             else if Nat.ltb (dl - pos - 2) (N.to_nat b1) then false
+             else hbh_tlvs_ok f2 (skipn (pos + N.to_nat b1 + 2) Dl)) then VU else VE)).
+  { intros ok ->. cbn [negb]. rewrite (STEP (pos + N.to_nat b1 + 2)%nat f2) by lia.
+    destruct (Nat.ltb_spec dl (pos + N.to_nat b1 + 2)); destruct (Nat.ltb_spec (dl - pos - 2) (N.to_nat b1)); try lia; reflexivity. }
+  destruct (t =? 1) eqn:T1.
+  { destruct (Nat.ltb_spec (dl - pos) 2); [lia|]. rewrite IDX1. cbn [bind]. apply (TAIL true). reflexivity. }
+  destruct (t =? 5) eqn:T5.
+  { unfold orr. cbn [bind]. destruct (Nat.ltb_spec (dl - pos) 4) as [H4|H4]; cbn [bind].
+    - destruct (b1 =? 2) eqn:E2; cbn [negb]; [|reflexivity].
+      assert (N.to_nat b1 = 2%nat) as -> by lia. destruct (Nat.ltb_spec (dl - pos - 2) 2); [reflexivity|lia].
+    - rewrite IDX1. cbn [bind]. destruct (b1 =? 2) eqn:E2; cbn [negb bind]; [|reflexivity].
+      rewrite sl_ok by (unfold cap in *; cbn [arr]; rewrite ?skipn_length; lia). cbn [bind].
+      assert (N.to_nat b1 = 2%nat) as E by lia. pose proof (TAIL true eq_refl) as T. rewrite E in T. cbn [negb] in T.
+      replace (pos + 2 + 2)%nat with (pos + 4)%nat in T by lia. rewrite E. replace (pos + 2 + 2)%nat with (pos + 4)%nat by lia. exact T. }
+  destruct (t =? 194) eqn:T194.
+  { unfold orr. cbn [bind]. destruct (Nat.ltb_spec (dl - pos) 6) as [H6|H6]; cbn [bind].
+    - destruct (b1 =? 4) eqn:E4; cbn [negb]; [|reflexivity].
+      assert (N.to_nat b1 = 4%nat) as -> by lia. destruct (Nat.ltb_spec (dl - pos - 2) 4); [reflexivity|lia].
+    - rewrite IDX1. cbn [bind]. destruct (b1 =? 4) eqn:E4; cbn [negb bind]; [|reflexivity].
+      assert (N.to_nat b1 = 4%nat) as E by lia. pose proof (TAIL true eq_refl) as T. rewrite E in T. cbn [negb] in T.
+      replace (pos + 4 + 2)%nat with (pos + 6)%nat in T by lia. rewrite E. replace (pos + 4 + 2)%nat with (pos + 6)%nat by lia. exact T. }
+  destruct (Nat.ltb_spec (dl - pos) 2); [lia|].
+  rewrite (shr6_div _ Bt). destruct (t / 64 =? 0) eqn:TH; cbn [negb bind]; [|reflexivity].
+  rewrite IDX1. cbn [bind]. apply (TAIL true). reflexivity.
 Qed.
 
-Lemma HBH_spec v : wf v -> bytes_ok (arr v) -> HBH_IsValid v = Ok true -> getters_spec HBH_findings_C02 HBH_getters HBH_specs v.
+Lemma HBH_spec v : wf v -> bytes_ok (arr v) -> HBH_IsValid v = Ok true -> getters_spec [] HBH_getters HBH_specs v.
 Proof.
   intros W B H. destruct (HBH_valid_facts v H) as [H2 HL]. unfold HBH_getters, HBH_specs. pose proof W as W'.
   unfold wf in W. pose proof (view_length _ W) as L. unfold getters_spec. each_spec.
@@ -236,11 +243,9 @@ Proof.
     unfold lval. cbn [loff lsl len]. strip; lia.
   - c02_fixed B L.
   - c02_fixed B L.
-  - (* ParseHopByHopExtensions: outside the two recorded classes the code's walk is the RFC tiling *)
-    intros K. simp_known K. unfold hbh_dlen, bt in K.
-    pose proof (bytes_ok_nth (arr v) 1 B) as B1.
+  - (* ParseHopByHopExtensions = the RFC 8200 tiling, for every valid header *)
+    intros _. pose proof (bytes_ok_nth (arr v) 1 B) as B1.
     set (dl := (N.to_nat (nth 1%nat (arr v) 0%N) * 8 + 6)%nat) in *.
-    assert (DEV : hbh_dev (S dl) v dl 0 = 0) by (destruct (hbh_dev_range (S dl) v dl 0) as [E|[E|E]]; [exact E | rewrite E in K; discriminate | rewrite E in K; discriminate]).
     cbn beta. unfold hbh_options, hbh_len. norm_bits. rewrite field_be_1 by (rewrite L; lia). rewrite nth_view by lia. pow_lits.
     replace (N.to_nat (8 * ((nth 1%nat (arr v) 0 / 1) mod 256) + 8)%N - 2)%nat with dl by (unfold dl; lia).
     unfold HBH_Parse, HBH_Data_l, HBH_Len_n, lsub, orr, lenN. slices.
@@ -248,7 +253,7 @@ Proof.
     destruct (N.of_nat (len v) <? nth 1 (arr v) 0 * 8 + 8) eqn:E2; [lia|]. cbn [lsl].
     rewrite sl_ok by lia. cbn [bind lsl]. unfold lenL. cbn [lsl len].
     replace (N.to_nat (nth 1%nat (arr v) 0 * 8 + 8)%N - 2)%nat with dl by (unfold dl; lia).
-    rewrite (hbh_lockstep v dl W') with (f := S dl) (f2 := S (List.length (sub (view v) 2 dl))); try lia; try exact DEV.
+    rewrite (hbh_lockstep v dl W' B) with (f2 := S (List.length (sub (view v) 2 dl))); try (unfold dl; lia).
     + reflexivity.
     + rewrite sub_length by (rewrite L; unfold dl; lia). lia.
 Qed.
@@ -412,25 +417,8 @@ Proof.
     rewrite sub_view by lia. unfold sub. rewrite first_zero_strnlen. reflexivity.
 Qed.
 
-(* witnesses of the two recorded classes of ParseHopByHopExtensions (replayed on the real code by the harness) *)
-Definition w_hbh_mask : slice := of_bytes [59;0; 32;4;0;0;0;7; 0;0].
-Lemma HBH_parse_masked_refuted :
-  wf w_hbh_mask /\ bytes_ok (arr w_hbh_mask) /\ HBH_IsValid w_hbh_mask = Ok true /\
-  HBH_Parse w_hbh_mask = Ok VE /\ lookup "ParseHopByHopExtensions" HBH_specs <> None /\
-  (forall s, lookup "ParseHopByHopExtensions" HBH_specs = Some (Some s) -> s (view w_hbh_mask) = VU) /\
-  key_of HBH_findings_C02 "ParseHopByHopExtensions" w_hbh_mask = Some "view-hbh-option-type-masked"%string.
-Proof.
-  repeat split; try (vm_compute; lia); try (apply bytes_okb_spec; vm_compute; reflexivity); try (vm_compute; reflexivity).
-  - vm_compute. discriminate.
-  - intros s Hs. cbn in Hs. injection Hs as <-. vm_compute. reflexivity.
-Qed.
-Definition w_hbh_overrun : slice := of_bytes [59;0; 1;9;0;0;0;0; 0;0].
-Lemma HBH_parse_overrun_refuted :
-  wf w_hbh_overrun /\ bytes_ok (arr w_hbh_overrun) /\ HBH_IsValid w_hbh_overrun = Ok true /\
-  HBH_Parse w_hbh_overrun = Ok VU /\
-  (forall s, lookup "ParseHopByHopExtensions" HBH_specs = Some (Some s) -> s (view w_hbh_overrun) = VE) /\
-  key_of HBH_findings_C02 "ParseHopByHopExtensions" w_hbh_overrun = Some "view-hbh-option-overrun-accepted"%string.
-Proof.
-  repeat split; try (vm_compute; lia); try (apply bytes_okb_spec; vm_compute; reflexivity); try (vm_compute; reflexivity).
-  intros s Hs. cbn in Hs. injection Hs as <-. vm_compute. reflexivity.
-Qed.
+(* non-vacuity: a header with PadN, router alert and Pad1 options tiling the area *)
+Definition ex_hbh : slice := of_bytes [58;1; 1;2;0;0; 5;2;0;0; 0;0;0;0;0;0; 9;9].
+Example HBH_valid_ex : wf ex_hbh /\ bytes_ok (arr ex_hbh) /\ HBH_IsValid ex_hbh = Ok true /\
+  HBH_Parse ex_hbh = Ok VU /\ HBH_Data ex_hbh = Ok (VR 2 14).
+Proof. repeat split; first [ apply bytes_okb_spec; vm_compute; reflexivity | vm_compute; reflexivity | vm_compute; lia ]. Qed.
